@@ -148,6 +148,14 @@ func (e *Engine) strBinop(op token.Token, x, y Value) Value {
 	x, y = normStr(x), normStr(y)
 	xs, xok := x.(string)
 	ys, yok := y.(string)
+	if op == token.ADD {
+		if xok && xs == "" {
+			return y
+		}
+		if yok && ys == "" {
+			return x
+		}
+	}
 	if xok && yok {
 		switch op {
 		case token.ADD:
@@ -253,18 +261,37 @@ func (e *Engine) byteStrEq(a, b *ByteStr) Value {
 	if len(a.B) != len(b.B) {
 		return false
 	}
-	var acc Value = true
-	for i := range a.B {
-		acc = e.andV(acc, e.byteEq(a.B[i], b.B[i]))
-		if c, ok := acc.(bool); ok && !c {
-			return false
-		}
+	if a == b {
+		return true
 	}
-	return acc
+	if a.Num != nil && b.Num != nil && !e.noNumStr {
+		return e.simplify(e.ts.Eq(a.Num, b.Num), nil)
+	}
+	var parts []*Term
+	for i := range a.B {
+		c := e.byteEq(a.B[i], b.B[i])
+		if cb, ok := c.(bool); ok {
+			if !cb {
+				return false
+			}
+			continue
+		}
+		parts = append(parts, c.(*Term))
+	}
+	return e.simplify(e.ts.And(parts...), nil)
 }
 
 // byteStrLt: lexicographic a < b (or <= when orEq).
 func (e *Engine) byteStrLt(a, b *ByteStr, orEq bool) Value {
+	if a == b {
+		return orEq
+	}
+	if a.Num != nil && b.Num != nil && len(a.B) == len(b.B) && !e.noNumStr {
+		if orEq {
+			return e.simplify(e.ts.Le(a.Num, b.Num), nil)
+		}
+		return e.simplify(e.ts.Lt(a.Num, b.Num), nil)
+	}
 	n := len(a.B)
 	if len(b.B) < n {
 		n = len(b.B)
@@ -419,7 +446,7 @@ func (e *Engine) formatDecimal(v Value, width int, pad bool) Value {
 					out = append(out, uint64('0'))
 				}
 				out = append(out, e.digitsOf(n, k, false)...)
-				return &ByteStr{B: out}
+				return &ByteStr{B: out, Num: n}
 			}
 		}
 		for k = 1; k <= 19; k++ {
@@ -442,6 +469,9 @@ func (e *Engine) formatDecimal(v Value, width int, pad bool) Value {
 			}
 		}
 		out = append(out, ds...)
+		if !neg {
+			return &ByteStr{B: out, Num: n}
+		}
 		return normStr(&ByteStr{B: out})
 	}
 	panic(engineErr("formatDecimal of %s", describeValue(v)))
